@@ -132,9 +132,62 @@ def coreSequential (prog : Prog) (pre : List CAct) (acts : List CAct) (order : L
   pure (s!"R[{String.intercalate "," results}] E\{{showE union}} P\{{showE probe}} L\{{Driver.Rt.showEvs log}} " ++
     statsCore k)
 
+/-! bridgerace: several threads calling into one Bridge; which ids are live is decided before the race -/
+
+open M.Rt M.Hosts M.Bridge in
+def bridgeSequential (prog : Prog) (pre : List CAct) (acts : List CAct) (order : List Nat) : Option String := do
+  let (_, h0) ← runBridge prog true (pre.map CAct.toAction)
+  -- the plan (as in the harness): noreq / stale / dup-skipped are decided on the state before the race
+  let plan : List (Except String (Option Nat)) := (acts.foldl (fun (acc : List (Except String (Option Nat)) × List Nat) a =>
+    match a with
+    | .res k _ =>
+      match h0.ids[k]? with
+      | none => (acc.1 ++ [.error "noreq"], acc.2)
+      | some id =>
+        let live := (h0.latest.find? (·.1 == id)).map (·.2) == some k && (h0.b.registry.get? id).isSome
+        if !live then (acc.1 ++ [.error "stale"], acc.2)
+        else if acc.2.contains k && (match h0.b.registry.get? id with | some (.many _) => false | _ => true) then
+          (acc.1 ++ [.error "dup-skipped"], acc.2)
+        else (acc.1 ++ [.ok (some id)], acc.2 ++ [k])
+    | _ => (acc.1 ++ [.ok none], acc.2)) ([], [])).1
+  let rec go (b : Bridge) (order : List Nat) (acc : List (Nat × String × List EffView)) :
+      Option (Bridge × List (Nat × String × List EffView)) :=
+    match order with
+    | [] => some (b, acc)
+    | i :: rest =>
+      match acts[i]?, plan[i]? with
+      | some a, some pl =>
+        match a, pl with
+        | _, .error c => go b rest ((i, c, []) :: acc)
+        | .ev t v, _ =>
+          match M.Bridge.processEvent b (some ⟨t, v⟩) with
+          | none => none
+          | some (.ok reqs, b) => go b rest ((i, "ok", reqs.map fun r => viewOf r.2) :: acc)
+          | some (.error e, b) => go b rest ((i, showBErr e, []) :: acc)
+        | .view, _ => go b rest ((i, "-", []) :: acc)
+        | .res _ v, .ok (some id) =>
+          match handleResponse b id (some v) with
+          | none => none
+          | some (.ok reqs, b) => go b rest ((i, "ok", reqs.map fun r => viewOf r.2) :: acc)
+          | some (.err e, b) => go b rest ((i, showBErr e, []) :: acc)
+          | some (.panic, b) => go b rest ((i, "panic", []) :: acc)
+        | _, _ => none
+      | _, _ => none
+  let (b, res) ← go h0.b order []
+  let (pr, b) ← M.Bridge.processEvent b (some ⟨probeTag, 0⟩)
+  let preqs := match pr with | .ok rs => rs | .error _ => []
+  let results := (List.range acts.length).map fun i => ((res.find? (·.1 == i)).map (·.2.1)).getD "?"
+  let union := sortBy keyLe (res.flatMap (·.2.2))
+  let probe := sortBy keyLe (preqs.map fun r => viewOf r.2)
+  let log := sortBy Driver.Rt.evLe (b.core.log.filter (·.tag != probeTag))
+  let regk := sortBy (fun (a c : Char) => a.toNat ≤ c.toNat) (b.registry.values.map kindChar)
+  let showE (es : List EffView) := String.intercalate "," (es.map fun e => s!"{e.n}:{e.v}:{e.kind}")
+  pure (s!"R[{String.intercalate "," results}] E\{{showE union}} P\{{showE probe}} L\{{Driver.Rt.showEvs log}} " ++
+    s!"G[{String.ofList regk}] " ++ statsCore b.core)
+
 def isCase (line : String) : Bool :=
   match Sexp.parse line with
-  | some (.list (.atom h :: _)) => h == "evict" || h == "race" || h == "corerace"
+  | some (.list (.atom h :: _)) => h == "evict" || h == "race" || h == "corerace" || h == "bridgerace"
   | _ => false
 
 def model (line : String) : String :=
@@ -145,6 +198,7 @@ def model (line : String) : String :=
     | _, _ => "bad-case"
   | some (.list (.atom "race" :: _)) => "unmodelled-interleaving"
   | some (.list (.atom "corerace" :: _)) => "unmodelled-interleaving"
+  | some (.list (.atom "bridgerace" :: _)) => "unmodelled-interleaving"
   | _ => "bad-case"
 
 def oracle (input : String) : String :=
@@ -157,6 +211,15 @@ def oracle (input : String) : String :=
       if impl.startsWith "evicted 1" && n.nat? != some 0 then "reject eviction-race" else
       if impl.startsWith "evicted 0 events 1" then "ok" else
       if impl.startsWith "evicted 1" then "ok" else "reject unparseable-observation"
+    | some (.list [.atom "bridgerace", .list prog, .list pre, .list acts, _]) =>
+      if impl.startsWith "panic" then "reject panicked" else
+      let impl := if impl.endsWith " STUCK" then (impl.dropEnd 6).toString else impl
+      if impl.endsWith "CONCURRENT-UPDATE" then "reject concurrent-update" else
+      match Driver.Rt.parseProg prog, pre.mapM parseCAct, acts.mapM parseCAct with
+      | some prog, some pre, some acts =>
+        let orders := permutations (List.range acts.length)
+        if orders.any (fun o => bridgeSequential prog pre acts o == some impl) then "ok" else "reject not-linearizable"
+      | _, _, _ => "bad-case"
     | some (.list [.atom "corerace", .list prog, .list pre, .list acts, _]) =>
       if impl.startsWith "panic" then "reject panicked" else
       let impl := if impl.endsWith " STUCK" then (impl.dropEnd 6).toString else impl
